@@ -259,7 +259,7 @@ func (r *rewriter) file(f *ast.File) {
 				}
 			}
 			switch se.Sel.Name {
-			case "Mutex", "RWMutex", "WaitGroup", "Once", "Cond", "NewCond":
+			case "Mutex", "RWMutex", "WaitGroup", "Once", "Cond", "NewCond", "Pool":
 				se.X = ast.NewIdent("simrt")
 				r.st.syncs++
 			}
